@@ -161,9 +161,26 @@ def r2(ctx):
            'createAnswerKey(' not in ga.key(rhs)]
     if not red:
         raise AnalysisBroken('C15.R2: key reduction assignment not found in getAnswer')
+    # a named constant (a local defined once, by its initialiser) stands for its initialiser
+    single = {d.split(':')[-1]: r for d, r in ga.single_defs().items()}
+
+    def expanded(text, depth=0):
+        import re as _re
+        if depth > 3:
+            return text
+        for nm, r in single.items():
+            if _re.search(r'(?<![\w.])%s(?![\w(])' % _re.escape(nm), text) and nm not in knames:
+                text = _re.sub(r'(?<![\w.])%s(?![\w(])' % _re.escape(nm), lambda m_: expanded(ga.key(r), depth + 1), text)
+        return text
     for nid, rhs in red:
-        k = ga.key(rhs)
+        k = expanded(ga.key(rhs))
         cs = set(consts_in(ga, rhs))
+        for y in ga.walk(rhs):
+            yv = ga.nodes[y]
+            if yv['k'] == 'DeclRefExpr' and yv.get('rk') == 'local' and yv.get('name') in single and yv.get('name') not in knames:
+                cs |= set(consts_in(ga, single[yv['name']]))
+                if ga.val(single[yv['name']]) is not None:
+                    cs.add(ga.val(single[yv['name']]) & U64)
         ok_len_mask = (~len_mask & U64) in cs or len_mask in cs
         import re
         mlen = re.search(r'\((\w+) << #%d\)' % lay['len'], k)
